@@ -485,6 +485,24 @@ func schemeSection(x *h.X) {
 			x.Fail("construct", "%s NewPublicKey(model public key): %v equal=%v", p.Name, err, err == nil && pub2.Equal(pub))
 			return
 		}
+		// the pair constructor: the matching public key is accepted, a public key that differs from the secret key's
+		// own copy in ANY byte (PK.seed half or PK.root half) is a modified key and is refused
+		if pr2, err := tslh.NewPrivateKeyWithPublicKey(secretdata.NewBytesFromData(bytes.Clone(rsk), insecuresecretdataaccess.Token{}), pub2); err != nil || !pr2.Equal(priv) {
+			x.Fail("construct", "%s NewPrivateKeyWithPublicKey(secret key, its public key): %v", p.Name, err)
+			return
+		}
+		for _, pos := range []int{0, len(rpk)/2 - 1, len(rpk) / 2, len(rpk) - 1} {
+			bad := bytes.Clone(rpk)
+			bad[pos] ^= 0x01
+			badPub, err := tslh.NewPublicKey(bad, pkv.id, params)
+			if err != nil {
+				continue
+			}
+			if _, err := tslh.NewPrivateKeyWithPublicKey(secretdata.NewBytesFromData(bytes.Clone(rsk), insecuresecretdataaccess.Token{}), badPub); err == nil {
+				x.Fail("accepts-modified-key", "%s NewPrivateKeyWithPublicKey accepts a public key whose byte %d of %d (%s half) differs from the secret key's own copy", p.Name, pos, len(rpk), map[bool]string{true: "PK.seed", false: "PK.root"}[pos < len(rpk)/2])
+			}
+			x.Eval(1)
+		}
 		signer, err := tslh.NewSigner(priv, vb.Tok())
 		if err != nil {
 			x.Fail("construct", "%s slhdsa.NewSigner: %v", p.Name, err)
@@ -540,8 +558,13 @@ func schemeSection(x *h.X) {
 			}
 			other := append(ref.Prefix(ref.Tink, keyID^1), raw...)
 			crunchy := append(ref.Prefix(ref.Crunchy, keyID), raw...)
-			for _, c := range []sigMut{{"the signature without its prefix", raw}, {"the signature under another key id's prefix", other}, {"the signature under a CRUNCHY prefix", crunchy},
-				{"the signature with a duplicated prefix", append(bytes.Clone(pkv.prefix), tsig...)}} {
+			muts := []sigMut{{"the signature without its prefix", raw}, {"the signature under another key id's prefix", other}, {"the signature under a CRUNCHY prefix", crunchy},
+				{"the signature with a duplicated prefix", append(bytes.Clone(pkv.prefix), tsig...)}, {"a nil signature", nil}}
+			// inputs SHORTER than, as long as and one byte longer than the output prefix (rejected with an error, not a panic)
+			for n := 0; n <= len(pkv.prefix)+1; n++ {
+				muts = append(muts, sigMut{fmt.Sprintf("the first %d bytes of the signature", n), bytes.Clone(tsig[:n])})
+			}
+			for _, c := range muts {
 				x.Eval(1)
 				var err error
 				if !try(x, v.name, func() { err = v.f(msg, c.sig) }) {
